@@ -90,7 +90,10 @@ CALLS = {
  "DeleteRowStyle": ("delete_row_style", "base/src/model.rs", ["u32","i32"], ["sheet","row"]),
  "NewDefinedName": ("new_defined_name", "base/src/model.rs", ["Seq<char>","Option<u32>","Seq<char>"], ["name@","scope","formula@"]),
  "DeleteDefinedName": ("delete_defined_name", "base/src/model.rs", ["Seq<char>","Option<u32>"], ["name@","scope"]),
+ "DeleteSheet": ("delete_sheet", "base/src/new_empty.rs", ["u32"], ["sheet_index"]),
+ "InsertSheet": ("insert_sheet", "base/src/new_empty.rs", ["Seq<char>","u32","Option<u32>"], ["sheet_name@","sheet_index","sheet_id"]),
 }
+GHOST_CALLS = ["SelectSheet(u32)"]
 
 out = []
 w = out.append
@@ -103,6 +106,8 @@ w("/// ghost record of one call into the engine")
 w("pub enum Call {")
 for c, (_m, _f, tys, _a) in CALLS.items():
     w(f"    {c}({', '.join(tys)}),")
+for gc in GHOST_CALLS:
+    w(f"    {gc},")
 w("}")
 meaning_calls = out
 out = out_main
@@ -159,6 +164,7 @@ for d in VARS:
         w("    ;")
         w("    Ok(())")
         w("}")
+w(open("/verif/tools/arms_extra.rs").read())
 w("}")
 w("")
 w("} // verus!")
